@@ -29,4 +29,20 @@ PROPS = {
             "iter_mut / IntoIterator for &mut Headers (mutation behind the cache) are outside the operation set of the property",
         ],
     },
+    'C11': {
+        'streams': ['router'],
+        'shrink': {},
+        'assumptions': [
+            "theorems cover route tables whose '**' segments are trailing (wf_table); other tables are covered by the correspondence stream only",
+            "sort_unstable_by + binary_search_by_key over unique keys = membership (std contract); HashMap<String,_> = finite map keyed by the exact method name",
+            "route/path strings are &str in Rust, byte strings in the model; '/' is ASCII so splitting commutes with UTF-8",
+        ],
+    },
+    'C12': {
+        'streams': ['router'],
+        'shrink': {},
+        'assumptions': [
+            "same model and stream as C11; the harness dumps the complete parameter vector (not only expected keys), and fails if the fallback carries parameters",
+        ],
+    },
 }
